@@ -720,10 +720,10 @@ class FW(object):
     def log(self): return self.fn('log')
 
     @property
-    def z1(self): return ('part', self, 1)
+    def z1(self): return PV(self, Poly.sym('z1'))
 
     @property
-    def z2(self): return ('part', self, 2)
+    def z2(self): return PV(self, Poly.sym('z2'))
 
     _interp = None
     _ci = None
@@ -731,13 +731,62 @@ class FW(object):
     def __getattr__(self, name):
         # derived functions calling other derived functions: use the analysed method body
         ci, I = FW._ci, FW._interp
-        if ci is None or name.startswith('_') and name not in ('__div__', '__rdiv__'):
+        if ci is None or name.startswith('__') and name not in ('__div__', '__rdiv__'):
             raise AttributeError(name)
         r = ci.lookup(name)
-        if r is None or r[0] not in ('method',):
+        if r is None or r[0] not in ('method', 'static'):
             raise AttributeError(name)
         fn = I.closure_for(r[2].module, r[1], r[2])
+        if r[0] == 'static':
+            return fn
         return lambda *a, **k: fn(self, *a, **k)
+
+
+class PV(object):
+    """A component level expression inside a derived function: an exp-polynomial in the two components (z1, z2) of one
+    formal value `base`.  Lets a method be written through shared component factors (cos(z1), sinh(z2), ..) - when such
+    expressions are wrapped into a Bicomplex again, the pair is recognised as one of the elementary functions of `base`."""
+    is_elem_ = True
+
+    def __init__(self, base, poly):
+        self.base, self.poly = base, poly
+
+    def _co(self, o):
+        if isinstance(o, PV):
+            if o.base is not self.base:
+                raise AnalysisError('component expressions of two different values combined')
+            return o.poly
+        if isinstance(o, (int, Fr, Poly)):
+            return Poly.of(o)
+        raise AnalysisError('component expression combined with %r' % (o,))
+
+    def __add__(self, o): return PV(self.base, self.poly + self._co(o))
+    __radd__ = __add__
+    def __sub__(self, o): return PV(self.base, self.poly - self._co(o))
+    def __rsub__(self, o): return PV(self.base, self._co(o) - self.poly)
+    def __mul__(self, o): return PV(self.base, self.poly * self._co(o))
+    __rmul__ = __mul__
+    def __neg__(self): return PV(self.base, -self.poly)
+
+    def __repr__(self):
+        return 'PV(%r)' % (self.poly,)
+
+
+def recognise_components(a, b):
+    """FW value of Bicomplex(a, b) for component expressions a, b of one base: f(base) for the elementary f whose
+    idempotent components they are; None when they are none of the known ones."""
+    base = a.base
+    z1, z2 = Poly.sym('z1'), Poly.sym('z2')
+    for name in ('sin', 'cos', 'sinh', 'cosh', 'exp'):
+        w1, w2 = oracle_components(name, z1, z2)
+        if same(a.poly, w1) and same(b.poly, w2):
+            return getattr(base, name)()
+    w1, w2 = oracle_components('expm1', z1, z2)
+    if same(a.poly, w1) and same(b.poly, w2):
+        return base.exp() - 1
+    if same(a.poly, z1) and same(b.poly, z2):
+        return base
+    return None
 
 
 PRIMS = ('sin', 'cos', 'sinh', 'cosh', 'exp', 'log', '__pow__', '__rpow__', '__add__', '__radd__', '__sub__', '__rsub__',
@@ -752,6 +801,11 @@ def formal_level(ctx, mc):
     def ufunc(name, x):
         if isinstance(x, FW):
             return getattr(x, name)() if hasattr(x, name) else x.fn(name)
+        if isinstance(x, PV):
+            r = exppoly_ufunc(name, x.poly)
+            if r is NotImplemented:
+                raise AnalysisError('np.%s of a component expression' % name)
+            return PV(x.base, r)
         return NotImplemented
     I, models = make_interp(ctx.repo, ufunc)
     FW._interp, FW._ci = I, ci
@@ -768,11 +822,12 @@ def formal_level(ctx, mc):
         # Bicomplex(a, b) inside method bodies: constants become a + unit*b, re-wrapping of parts is the identity
         if fn is cref:
             a, b = args[0], args[1]
-            if isinstance(a, tuple) and isinstance(b, tuple) and a[0] == 'part' and b[0] == 'part' and a[1] is b[1] \
-                    and (a[2], b[2]) == (1, 2):
-                return (a[1],)
             if all(isinstance(v, (int, Fr, Poly)) for v in (a, b)):
                 return (FW(Poly.of(a) + UNIT * Poly.of(b)),)
+            if isinstance(a, PV) and isinstance(b, PV) and a.base is b.base:
+                r = recognise_components(a, b)
+                if r is not None:
+                    return (r,)
             raise AnalysisError('Bicomplex(%r, %r) in a derived function' % (a, b))
         return None
     I.on_call = factory
